@@ -150,6 +150,7 @@ def corpus(tier):
         out.append(("buffer/" + bcls, [fixed("a", 1), fixed("b", 2, optional=True), worker("w"), req("a", "w"), req("b", "w"),
                                        new(bcls, "bf", name="bf", initial_level=3),
                                        con("TaskUnloadBuffer", "u0", task=R("a"), buffer=R("bf"), quantity=1)], 3))
+    out.append(("late-deadline", [fixed("a", 2, due_date=6), fixed("b", 1, due_date=4, release_date=1), worker("w"), req("a", "w"), req("b", "w")], 4))
     out.append(("attrs", [fixed("a", 1, priority=3, work_amount=0, release_date=1, due_date=4), var("b", max_duration=2, due_date=2, due_date_is_deadline=False, priority=0),
                           worker("w", productivity=2), req("a", "w")], 4))
     return out
